@@ -19,7 +19,7 @@ META = {
 SHARD_DEADLINE = {'quick': 400, 'thorough': 3400}
 CASE_TIMEOUT = {'quick': 25, 'thorough': 90}
 NAMES = ['x10', 'x2', 'x1', 'x21', 'y', 'y1', 'z3', 'w', 'A', 'b_', 'a12', 'a1', 'B2', 'q', 'x3', 'x11', 'zz', 'm', 'k9', 'k10']
-ALLOPS = ops.BINARY + ops.UNARY
+ALLOPS = ops.BINARY + ops.UNARY + ['norm']
 
 
 def floors(tier):
@@ -72,7 +72,7 @@ def one_case(ctx, alg, cfg, name, op):
     to = CASE_TIMEOUT[ctx.tier]
     canon = tuple(alg.canon2bin.values())
     arity = 2 if op in ops.BINARY else 1
-    composite = op in ops.COMPOSITE_BIN or op in ops.COMPOSITE_UN
+    composite = op in ops.COMPOSITE_BIN or op in ops.COMPOSITE_UN or op == 'norm'
     cap = 3 if composite else 4
     graded = bool(cfg.get('opts', {}).get('graded'))
     if graded:
@@ -85,6 +85,9 @@ def one_case(ctx, alg, cfg, name, op):
                 ks = alg.indices_for_grades[(gs[0],)]
             keysets.append(ks)
         ctx.count('graded_mode_cases')
+    elif op == 'norm':
+        pos = [k for k in canon if k and alg.signs[k, k] * (-1) ** ((bin(k).count('1') * (bin(k).count('1') - 1)) // 2) > 0]
+        keysets = [(rng.choice(pos),)] if pos else [(0,)]
     elif op == 'sqrt':
         nonsc = [k for k in canon if k]
         keysets = [(0, rng.choice(nonsc))]
@@ -166,13 +169,17 @@ def one_case(ctx, alg, cfg, name, op):
             ctx.note_raised(xs, 'construct')
         return
     xn = build(num_vals, False)
-    stn, rn = ctx.guarded(to, ops.call_op, alg, op, *xn)
+    def apply_op(*mvs):
+        if op == 'norm':
+            return mvs[0].norm()
+        return ops.call_op(alg, op, *mvs)
+    stn, rn = ctx.guarded(to, apply_op, *xn)
     if stn != 'ok':
         if stn == 'exc':
             ctx.note_raised(rn, op + '-numeric')
             ctx.count('numeric_pole_or_error_skipped')
         return
-    sts, rs = ctx.guarded(to * 2, ops.call_op, alg, op, *xs)
+    sts, rs = ctx.guarded(to * 2, apply_op, *xs)
     if sts == 'timeout':
         ctx.count('symbolic_timeouts')
         return
@@ -205,7 +212,9 @@ def one_case(ctx, alg, cfg, name, op):
                           got=show_elem({k: mv_dict(got).get(k, 0) for k in bad[:4]}),
                           expected=show_elem({k: want.get(k, 0) for k in bad[:4]}), blades=[alg.bin2canon[k] for k in bad[:6]], **wit)
     if free:
-        st1, g1 = ctx.guarded(to, lambda: rs(**{n: point[n] for n in fnames}))
+        kw_order = list(fnames)
+        rng.shuffle(kw_order)       # keywords bind by name, whatever order the caller writes them in
+        st1, g1 = ctx.guarded(to, lambda: rs(**{n: point[n] for n in kw_order}))
         if st1 == 'ok':
             ctx.count('keyword_calls_compared')
             compare('keyword call', g1)
